@@ -296,7 +296,12 @@ impl MsgSpec {
         // what is serialised, sealed and fingerprinted afterwards.
         let noisy = (self.tid as u64).wrapping_add(self.attrs.len() as u64 * 3).wrapping_add(self.seals.len() as u64) % 5 == 0;
         let noise_val = [0x5au8; 7];
-        for (a, s) in self.attrs.iter().zip(store.iter()) {
+        for (i, (a, s)) in self.attrs.iter().zip(store.iter()).enumerate() {
+            if noisy && i == 1 {
+                // an application that looks at the size / bytes of the message while assembling it
+                let _ = b.byte_len();
+                let _ = b.build();
+            }
             match (a, s) {
                 (TAttr::Raw(ty, v), _) => {
                     if *ty == MI || *ty == MI256 || *ty == FP {
@@ -749,7 +754,7 @@ pub fn gen_foreign_attr(ch: &mut Choices) -> RefItem {
 /// does not forbid them and the parser must return the first), then one of the legal tails.
 pub fn gen_foreign(ch: &mut Choices, creds: &Creds, max_attrs: u64) -> RefMsg {
     let class = ch.below(4) as u8;
-    let method = *ch.pick(&[1u16, 0, 0xfff, 3, 0x080, 0x555]);
+    let method = if ch.rare(1, 5) { ch.below(0x1000) as u16 } else { *ch.pick(&[1u16, 0, 0xfff, 3, 0x080, 0x555, 0x00b, 0x00c, 0x00d]) };
     let mut m = RefMsg::new(class, method, gen_tid(ch));
     let many = max_attrs >= 4 && ch.rare(1, 40);
     let n = if many { *ch.pick(&[32u64, 33, 64, 65, 128, 300]) } else { ch.range(0, max_attrs) };
